@@ -58,7 +58,7 @@ inline MiniProbe mini_probe(const MiniEngine& e, const J& c) {
         close(fds[0]);
         close(efds[0]);
         dup2(efds[1], 2);
-        alarm(300);
+        cpu_alarm(300);
         MiniOutcome o = e.run(c);
         J j = J::obj();
         j.set("key", o.key);
@@ -179,9 +179,9 @@ inline int mini_run(
                 fprintf(out, "S %ld\n", k);
                 fflush(out);
                 J c = e.gen(seed_of(k), tier, k);
-                alarm(300);
+                cpu_alarm(300);
                 MiniOutcome o = e.run(c);
-                alarm(0);
+                cpu_alarm(0);
                 for (auto& kv : o.counters)
                     cc[kv.first] += kv.second;
                 fprintf(
